@@ -124,8 +124,16 @@ class Oracles:
             @functools.wraps(real)
             def wrapped(*a: Any, **k: Any) -> Any:     # a plain function around a coroutine function: not a coroutine function
                 return real(*a, **k)
-            which = op.get("func_kind", 0) % 5
-            func = [plain, lambda *a, **k: calls.append("called"), functools.partial(plain, 1), len, wrapped][which]  # type: ignore[list-item]
+            async def agen(*a: Any, **k: Any) -> Any:     # an async generator function: calling it returns no coroutine
+                calls.append("called")  # type: ignore[arg-type]
+                yield 1
+
+            class Callable_:
+                def __call__(self, *a: Any, **k: Any) -> None:
+                    calls.append("called")  # type: ignore[arg-type]
+            which = op.get("func_kind", 0) % 9
+            func = [plain, lambda *a, **k: calls.append("called"), functools.partial(plain, 1), len, wrapped, agen, functools.partial(agen, 1),
+                    Callable_(), Callable_][which]  # type: ignore[list-item]
             causes.add("NotCoroutineFunction")
         if "nc" in bad and rm.kind != "apply":
             rm.spec["nc"] = [0, -1, -2, 0.5][op.get("nc_val", 0) % 4]      # anything below 1 is no number of concurrent tasks
